@@ -134,7 +134,9 @@ static carquet_status_t decode_levels_rle(
     int64_t decoded = carquet_rle_decode_levels(
         data, data_size, bit_width, levels, num_values);
 
-    if (decoded < 0) {
+    /* A level block that ends before the page's value count leaves the rest
+     * of the caller's level array unwritten: the page is corrupt */
+    if (decoded < 0 || decoded < num_values) {
         return CARQUET_ERROR_DECODE;
     }
 
